@@ -172,8 +172,8 @@ def table_structure(chk, lp, env):
 
 def grid_accessors(chk):
     mod = chk.mod(U.GRID)
-    attrs = {"_layout": ("layout", None, None), "_Vals": eta_grid_tag(), "_splines": [OTHER] * 4,
-             "_nGlobalCoords": [("size", G(d)) for d in range(4)], "_f": OTHER}
+    attrs = {"_layout": ("layout", None, None), "_Vals": eta_grid_tag(), "_splines": I.DimList([OTHER] * 4),
+             "_nGlobalCoords": I.DimList([("size", G(d)) for d in range(4)]), "_f": OTHER}
     n_obs = 0
     for m in ("getCoords", "getEta", "getCoordVals", "getGlobalIdxVals", "getGlobalIndices", "get2DSlice", "get1DSlice",
               "get2DSpline", "get1DSpline", "getSpline", "getMin", "getMax", "getBlockForFig", "writeH5Dataset", "loadFromFile"):
